@@ -345,3 +345,20 @@ CONTRACTS.append(Contract(
     descr="every string; regular expression abstract (fields arbitrary)",
 ))
 MUTANTS.append(("libpass pbkdf2: digest name compared by substring", IP, "    if digest_name != cls.DIGEST_NAME:", "    if digest_name not in cls.DIGEST_NAME:", "refute", "inspect_pbkdf2_hash"))
+
+
+# ---- libpass cost validation: "every cost" -- both ends of the documented range are accepted ----
+CONTRACTS.append(Contract(
+    "libpass.validate_rounds", "libpass/_utils/validation.py::validate_rounds",
+    params={"rounds": Int(), "min": Int(), "max": Int()},
+    raises_iff={"ValueError": "rounds < min or rounds > max"},
+    ensures=[("inside the inclusive range nothing happens", "result is None")],
+    replay=__import__("pyvc.replay", fromlist=["py_replay"]).py_replay(
+        "from libpass._utils.validation import validate_rounds\ndef attempt(r, lo, hi):\n    try:\n        validate_rounds(r, lo, hi)\n        return True\n    except ValueError:\n        return False",
+        "r = (attempt(V['rounds'], 1000, 999999999), 1000 <= V['rounds'] <= 999999999)", "exc is None and r[0] == r[1]", {"rounds": 999999999},
+        search=lambda v: [dict(v, rounds=x) for x in (999, 1000, 1001, 999999998, 999999999, 1000000000)]),
+    descr="all integers",
+))
+MUTANTS += [
+    ("libpass validate_rounds: half-open range", "libpass/_utils/validation.py", "    if rounds < min or rounds > max:", "    if rounds < min or rounds >= max:", "refute", "validate_rounds"),
+]
